@@ -3,14 +3,14 @@ import FxVerif.Model.Util
 /-! line-protocol driver for the C01/C02 model: `lake env lean --run Driver/C01.lean < ops.txt`
 
 ops (all numbers decimal; lists comma separated, `-` = empty):
-  reset <threshold> <multiple> <slashFracMantissa>
+  reset <threshold> <multiple> <slashFracMantissa> [<chain> <signedWindow> <nOracles>]
   claim <wrapperBridger> <innerBridger> <nonce> <hashId> <kind: p | o | s:<extIds>> <extHeight>
   bond <oracle> <bridger> <ext> <amount> <dep>
   adddel <oracle> <amount> <dep>
   editbr <oracle> <bridger>
   unbond <oracle> <ubd> <bal> <dep>
   gov <oracles> <dep>
-  endblock <slashed> <oracleSetReq>
+  endblock <slashed> <oracleSetReq> [<blocks>]
   exec <nonce> <fails>
 answer: `<out> lo=.. tp=.. ln=.. or=.. bb=.. be=.. prop=.. atts=.. pend=..` (maps in key order)
 -/
@@ -38,6 +38,7 @@ def parseOp (ws : List String) : Option Op :=
   | ["unbond", o, u, bal, d] => do pure (.unbond (← o.toNat?) (← bool? u) (← bal.toNat?) (← bool? d))
   | ["gov", l, d] => do pure (.gov (← natList? l) (← bool? d))
   | ["endblock", l, r] => do pure (.endBlock (← natList? l) (← bool? r))
+  | ["endblock", l, r, _blocks] => do pure (.endBlock (← natList? l) (← bool? r))
   | ["exec", n, f] => do pure (.exec (← n.toNat?) (← bool? f))
   | _ => none
 
@@ -68,7 +69,7 @@ def stepLine (s : State) (line : String) : State × String :=
   match words line with
   | "reset" :: rest =>
     match rest with
-    | [t, m, f] =>
+    | t :: m :: f :: _ =>   -- further fields (chain, signed window, #oracles) only matter to the harness
       match t.toNat?, m.toNat?, f.toNat? with
       | some t, some m, some f => (init { threshold := t, multiple := m, slashFrac := f }, "ok")
       | _, _, _ => (s, "bad-op")
